@@ -169,24 +169,25 @@ def decodeFields (s : String) : Option (List (Bytes × Bytes)) :=
 def decodeFieldLists (s : String) : Option (List (List (Bytes × Bytes))) :=
   if s == "none" then some [] else (s.splitOn "/").mapM decodeFields
 
-/-- `c02h3recv <segs> <fin> <fieldlists> <maxHeaderBytes> <reads>` →
+/-- `c02h3recv <head 0|1> <segs> <fin> <fieldlists> <maxHeaderBytes> <reads>` →
 `status=… hdr=… n=… err=… data=… trailer=…` or `error:<e>` -/
 def laneH3Recv : List String → String
-  | [segs, fin, fls, maxh, reads] =>
-    match decodeList segs, parseNetEnd fin, decodeFieldLists fls, maxh.toNat?, decodeNatList reads with
-    | some segs, some fin, some fls, some maxh, some reads =>
+  | [hd, segs, fin, fls, maxh, reads] =>
+    match (match hd.toList with | [c] => parseBool01 c | _ => none),
+          decodeList segs, parseNetEnd fin, decodeFieldLists fls, maxh.toNat?, decodeNatList reads with
+    | some isHead, some segs, some fin, some fls, some maxh, some reads =>
       let s0 : H3Stream := { net := { segs := segs, fin := fin }, remInFrame := 0, parsedTrailer := false,
                              trailer := none, fieldLists := fls, maxHeaderBytes := maxh }
       match s0.readFinalResponse 7 0 with
       | (.error e, _) => "error:" ++ h3ErrStr (some e)
       | (.ok h, s1) =>
-        let (rs, b') := (H3Body.new h s1).runReads reads
+        let (rs, b') := (H3Body.new isHead h s1).runReads reads
         let lastErr := lastErr rs
         "status=" ++ toString h.status ++ " hdr=" ++ kvStr h.fields ++
           " n=" ++ encodeNatList (rs.map fun (d, _) => d.length) ++ " err=" ++ h3ErrStr lastErr ++
           " data=" ++ encodeHex (outBytes rs) ++
           " trailer=" ++ kvStr (match b'.str.trailer with | some t => t | none => [])
-    | _, _, _, _, _ => "bad-op"
+    | _, _, _, _, _, _ => "bad-op"
   | _ => "bad-op"
 
 def h2ErrStr : Option H2Err → String
